@@ -78,6 +78,10 @@ pub struct CsvCase {
     pub wrap: u8,
     /// write through writer::csv::write to a file instead of write_writer to memory
     pub via_path: bool,
+    /// cells of the active sheet removed again (remove_cell) after filling: raw indexes mapped
+    /// monotonically onto the distinct filled positions in (row, column) order
+    #[serde(default)]
+    pub removed: Vec<u16>,
 }
 
 fn wrap_char(w: u8) -> Option<char> {
@@ -162,11 +166,12 @@ fn csv_case(_t: Tier) -> BoxedStrategy<CsvCase> {
                 any::<u8>(),
                 any::<bool>(),
                 prop::bool::weighted(0.125),
+                prop_oneof![3 => Just(Vec::new()), 2 => prop::collection::vec(any::<u16>(), 1..4)],
             )
         })
-        .prop_map(|(enc, wrap, sheets, active, trim, via_path)| {
+        .prop_map(|(enc, wrap, sheets, active, trim, via_path, removed)| {
             let n = sheets.len() as u8;
-            CsvCase { sheets, active: active % n.max(1), enc, trim, wrap, via_path }
+            CsvCase { sheets, active: active % n.max(1), enc, trim, wrap, via_path, removed }
         })
         .boxed()
 }
@@ -284,6 +289,20 @@ fn check_csv(c: &CsvCase, obs: &mut Obs) -> Verdict {
         };
         grid.insert((cell.row as u32, cell.col as u32), e);
     }
+    // cells removed again after filling
+    let mut removed_pos: Vec<(u32, u32)> = Vec::new();
+    for raw in &c.removed {
+        let keys: Vec<(u32, u32)> = grid.keys().cloned().collect();
+        if keys.len() <= 1 {
+            break;
+        }
+        let k = keys[pick_idx(*raw, keys.len())];
+        grid.remove(&k);
+        removed_pos.push(k);
+    }
+    if !removed_pos.is_empty() {
+        obs.class("history/fill-then-remove");
+    }
     let max_row = grid.keys().map(|k| k.0).max().unwrap_or(0);
     let max_col = grid.keys().map(|k| k.1).max().unwrap_or(0);
     for e in grid.values() {
@@ -336,6 +355,9 @@ fn check_csv(c: &CsvCase, obs: &mut Obs) -> Verdict {
                     }
                 }
             }
+        }
+        for (row, col) in &removed_pos {
+            book.get_sheet_mut(&active).unwrap().remove_cell((*col, *row));
         }
         book.set_active_sheet(active as u32);
         let mut option = CsvWriterOption::default();
@@ -569,7 +591,7 @@ fn extra(ctx: &Ctx) {
                     ];
                     let other = vec![cell(1, 1, "other sheet"), cell(9, 9, "x")];
                     for (sheets, act) in [(vec![active.clone(), other.clone()], 0u8), (vec![other.clone(), active.clone()], 1u8)] {
-                        let case = CsvCase { sheets, active: act, enc, trim, wrap, via_path: false };
+                        let case = CsvCase { sheets, active: act, enc, trim, wrap, via_path: false, removed: Vec::new() };
                         let mut obs = Obs::default();
                         let v = check_csv(&case, &mut obs);
                         let fp = fnv(format!("enum|{}|{}|{}|{}|{}", enc, trim, wrap, breaking, act).as_bytes());
